@@ -384,3 +384,7 @@ def run(ctx):
     payload = pkl.program(wrap(route_fragment(route, m, a, proto), draw(st.integers(0, 4))), max(proto, min_proto(route)))
     return draw(mutated(payload))
   run_given(ctx, mutated_global(), exec_raw, ctx.scale(1500, 8000), salt=2)
+  if not ctx.quick:
+    from .c11 import atheris_campaign
+    for data in atheris_campaign(ctx, 'c13', 100000):
+      exec_raw(ctx, data)
